@@ -7,6 +7,8 @@
 -/
 import RV.Model.Auth
 import RV.Proofs.Auth
+import RV.Proofs.AuthRfc
+import RV.Model.MD5
 namespace RV.C03
 open RV
 
@@ -104,6 +106,493 @@ theorem new_uses_entropy (rnd : Bytes) (c : Int) (s : Bytes) (h : rnd.length = 1
     (newPacket rnd c s).auth.length = 16 ∧ (newPacket rnd c s).code = c ∧
     (newPacket rnd c s).secret = s ∧ (newPacket rnd c s).attrs = [] := by
   exact newPacket_fields rnd c s h
+
+/-!
+  ## Strengthening (audit round 4)
+
+  The theorems above compare the model with `Rfc.replyAuth`, which is the model's own `authInput`
+  over byte offsets.  Below the comparison is with the INDEPENDENT field-level specification
+  RV/Spec/Authenticator.lean (`RV.Rfc2865`, `RV.Rfc2866`, `RV.Rfc5176`, `RV.RfcAuth`), written from the
+  RFC texts over the fields Code, Identifier, Length, Authenticator, Attributes.  The link "byte
+  offsets ↔ fields" is `wireFields`, justified three ways: it is what `parse` reads (`parse_fields`),
+  it inverts the RFC's layout `Rfc2865.serialize` (`wireFields_serialize`, `serialize_wireFields`),
+  and it is what `Encode` emits (`encode_fields`).
+-/
+open RfcAuth
+
+/-! ### 7. The datagram ↔ field link -/
+
+/-- `parse` returns exactly the fields `wireFields` names: code, identifier, authenticator, and the
+    attribute region (which parses to the packet's attributes and is their encoding); the region is
+    delimited by the Length field. -/
+theorem parse_fields (w s : Bytes) (p : Packet) (h : parse w s = .ok p) :
+    p.code = ((wireFields w).code.toNat : Int) ∧ p.id = (wireFields w).identifier ∧
+      p.auth = (wireFields w).authenticator ∧
+      parseAttrs (wireFields w).attributes = .ok p.attrs ∧
+      encodeBytes p.attrs = (wireFields w).attributes ∧
+      (wireFields w).length = lengthField w := by
+  exact parse_fields_aux w s p h
+
+/-- `wireFields` is the inverse of the RFC's packet layout: laying fields out and reading them back
+    gives the same fields, and the Length field transmitted is the RFC's Length … -/
+theorem wireFields_serialize (f : Rfc2865.Fields) (ha : f.authenticator.length = 16)
+    (hl : f.length < 65536) :
+    wireFields (Rfc2865.serialize f) = f ∧ lengthField (Rfc2865.serialize f) = f.length ∧
+      (Rfc2865.serialize f).length = f.length := by
+  exact ⟨RV.wireFields_serialize f ha hl, lengthField_serialize f hl, serialize_length f ha⟩
+
+/-- … and a datagram without padding is the layout of its fields. -/
+theorem serialize_wireFields (w : Bytes) (h0 : 20 ≤ w.length) (h : lengthField w = w.length) :
+    Rfc2865.serialize (wireFields w) = w := by
+  exact RV.serialize_wireFields w h0 h
+
+/-! ### 8. The code switch against the per-RFC classification -/
+
+/-- `Encode` sends the authenticator verbatim / hashes over the request authenticator / hashes over
+    sixteen zero octets exactly for the codes of the packet types to which the RFCs give that rule;
+    it refuses exactly the codes that are no packet type's. -/
+theorem encodeClass_per_rfc (c : Int) :
+    (encodeClass c = .verbatim ↔ ∃ k : Kind, (k.code : Int) = c ∧ Rule k .unpredictable) ∧
+    (encodeClass c = .hashReqAuth ↔ ∃ k : Kind, (k.code : Int) = c ∧ Rule k .overRequestAuthenticator) ∧
+    (encodeClass c = .hashZero ↔ ∃ k : Kind, (k.code : Int) = c ∧ Rule k .overZeroOctets) ∧
+    (encodeClass c = .refused ↔ ∀ k : Kind, (k.code : Int) ≠ c) := by
+  exact ⟨encodeClass_eq_classOf_iff c .unpredictable, encodeClass_eq_classOf_iff c .overRequestAuthenticator,
+    encodeClass_eq_classOf_iff c .overZeroOctets, encodeClass_refused_iff c⟩
+
+/-- `IsAuthenticRequest`'s switch: always for the unpredictable-authenticator requests, the hash
+    test for the zero-octet requests, never for replies and unassigned codes. -/
+theorem requestClass_per_rfc (n : Nat) :
+    (requestClass n = .always ↔ ∃ k : Kind, k.code = n ∧ Rule k .unpredictable) ∧
+    (requestClass n = .hashZero ↔ ∃ k : Kind, k.code = n ∧ Rule k .overZeroOctets) ∧
+    (requestClass n = .never ↔ ∀ k : Kind, k.code = n → IsReply k) := by
+  exact ⟨requestClass_iff n .unpredictable (by simp), requestClass_iff n .overZeroOctets (by simp),
+    requestClass_never_iff n⟩
+
+/-- the classification is a function on packet types, total, and the codes are distinct — so the
+    three cases above are exclusive and exhaustive over the assigned codes -/
+theorem rule_is_a_function :
+    (∀ k r r', Rule k r → Rule k r' → r = r') ∧ (∀ k, ∃ r, Rule k r) ∧
+    (∀ k k' : Kind, k.code = k'.code → k = k') ∧ (∀ k : Kind, 1 ≤ k.code ∧ k.code ≤ 45) := by
+  exact ⟨rule_functional, rule_total, kind_code_injective, kind_code_range⟩
+
+/-- the two RFCs that define a hashed Request Authenticator give the same formula, and the three
+    that define a Response Authenticator give the same formula -/
+theorem rfc_formulas_agree (H : Hash) (f : Rfc2865.Fields) (a s : Bytes) :
+    Rfc5176.requestAuth H f s = Rfc2866.requestAuth H f s ∧
+    Rfc2866.responseAuth H f a s = Rfc2865.responseAuth H f a s ∧
+    Rfc5176.responseAuth H f a s = Rfc2865.responseAuth H f a s := by
+  exact ⟨rfl, rfl, rfl⟩
+
+/-! ### 9. (a) Encode, field by field -/
+
+/-- A datagram `Encode` emits is, for the packet type `k` whose code the packet carries, the RFC
+    layout (`Rfc2865.serialize`, no padding) of the fields: Code = `k`'s code, Identifier = the
+    packet's, Length = 20 + the attribute region, Attributes = the encoding of the packet's
+    attributes (`encodeBytes`: C01), Authenticator = what the RFC prescribes for `k` — the packet's own
+    sixteen octets (Access-Request, Status-Server), `Rfc2865.responseAuth` over these fields and the
+    packet's authenticator as Request Authenticator (every reply type), `Rfc2866.requestAuth` over
+    these fields (Accounting-, Disconnect-, CoA-Request). -/
+theorem encode_fields (H : Hash) (hH : ∀ x, (H x).length = 16) (p : Packet) (w : Bytes)
+    (ha : p.auth.length = 16) (h : encode H p = .ok w) :
+    ∃ k r, (k.code : Int) = p.code ∧ Rule k r ∧
+      lengthField w = w.length ∧ w.length = 20 + (encodeBytes p.attrs).length ∧
+      (wireFields w).code = UInt8.ofNat k.code ∧
+      (wireFields w).identifier = p.id ∧
+      (wireFields w).length = 20 + (encodeBytes p.attrs).length ∧
+      (wireFields w).authenticator = authenticatorFor H r (wireFields w) p.auth p.secret ∧
+      (wireFields w).attributes = encodeBytes p.attrs ∧
+      w = Rfc2865.serialize (wireFields w) := by
+  exact encode_fields_aux H hH p w ha h
+
+/-! ### 10. (b) the response predicate on a datagram without padding -/
+
+/-- For a datagram whose Length field equals its size, `IsAuthenticResponse` is true iff the secret
+    is non-empty, both datagrams have at least 20 octets and the Authenticator field equals the RFC's
+    Response Authenticator over the datagram's fields and the request's Authenticator field. -/
+theorem isAuthenticResponse_iff_fields (H : Hash) (w req s : Bytes) (hpad : lengthField w = w.length) :
+    isAuthenticResponse H w req s = true ↔
+      s ≠ [] ∧ 20 ≤ w.length ∧ 20 ≤ req.length ∧
+      (wireFields w).authenticator =
+        Rfc2865.responseAuth H (wireFields w) (wireFields req).authenticator s := by
+  exact isAuthenticResponse_fields H w req s hpad
+
+/-- the same, stated on fields: for every reply laid out per RFC -/
+theorem isAuthenticResponse_serialize (H : Hash) (f : Rfc2865.Fields) (req s : Bytes)
+    (ha : f.authenticator.length = 16) (hl : f.length < 65536) :
+    isAuthenticResponse H (Rfc2865.serialize f) req s = true ↔
+      s ≠ [] ∧ 20 ≤ req.length ∧
+      f.authenticator = Rfc2865.responseAuth H f (wireFields req).authenticator s := by
+  have hlf := lengthField_serialize f hl
+  have hlen := serialize_length f ha
+  rw [isAuthenticResponse_fields H _ req s (by rw [hlf, hlen]), RV.wireFields_serialize f ha hl, hlen]
+  have : 20 ≤ f.length := by simp [Rfc2865.Fields.length]
+  constructor
+  · rintro ⟨h1, _, h2, h3⟩; exact ⟨h1, h2, h3⟩
+  · rintro ⟨h1, h2, h3⟩; exact ⟨h1, this, h2, h3⟩
+
+/-! ### 11. (c) what the code does with octets beyond Length -/
+
+/-- DEVIATION FROM THE RFC TEXT, kept visible: RFC 2865 §3 computes the Response Authenticator over
+    the packet, i.e. `Length` octets, and says octets outside the range of the Length field MUST be
+    treated as padding and ignored.  `IsAuthenticResponse` hashes `response[20:]`, the WHOLE rest of
+    the datagram: the attribute region FOLLOWED BY THE PADDING (and the Length octets as transmitted).
+    Stated for every datagram whose Length field is in range (20 ≤ Length ≤ size). -/
+theorem padding_is_hashed (H : Hash) (w req s : Bytes)
+    (h1 : 20 ≤ lengthField w) (h2 : lengthField w ≤ w.length) :
+    isAuthenticResponse H w req s = true ↔
+      s ≠ [] ∧ 20 ≤ req.length ∧
+      (wireFields w).authenticator =
+        H ([(wireFields w).code] ++ [(wireFields w).identifier] ++
+            Rfc2865.lengthOctets (wireFields w).length ++ (wireFields req).authenticator ++
+            ((wireFields w).attributes ++ padding w) ++ s) := by
+  exact isAuthenticResponse_padding H w req s h1 h2
+
+/-- Consequence: appending padding to a reply leaves its fields (and its `parse`, C01
+    `parse_ignores_padding`) unchanged, but the padded datagram is accepted iff its Authenticator is the
+    hash of the input WITH the padding — so a reply that is authentic per RFC stops verifying once
+    padded unless `H` collides on the two inputs, and `Client.Exchange` counts it as non-authentic. -/
+theorem padded_reply (H : Hash) (w pad req s : Bytes) (hw : 20 ≤ w.length)
+    (hpad : lengthField w = w.length) :
+    wireFields (w ++ pad) = wireFields w ∧ padding (w ++ pad) = pad ∧
+    (isAuthenticResponse H (w ++ pad) req s = true ↔
+      s ≠ [] ∧ 20 ≤ req.length ∧
+      (wireFields w).authenticator =
+        H ([(wireFields w).code] ++ [(wireFields w).identifier] ++
+            Rfc2865.lengthOctets (wireFields w).length ++ (wireFields req).authenticator ++
+            ((wireFields w).attributes ++ pad) ++ s)) := by
+  obtain ⟨e1, e2, e3⟩ := wireFields_append w pad (by omega) (by omega)
+  have e2' : padding (w ++ pad) = pad := by rw [e2, padding_nil w hpad, List.nil_append]
+  refine ⟨e1, e2', ?_⟩
+  rw [isAuthenticResponse_padding H (w ++ pad) req s (by omega) (by rw [e3]; simp; omega), e1, e2']
+
+/-! ### 12. (d) the request predicate per packet type -/
+
+/-- For a datagram without padding, `IsAuthenticRequest` is true iff the secret is non-empty, the
+    datagram has at least 20 octets and its Code is that of a packet type whose Request Authenticator
+    is unpredictable (Access-Request, Status-Server: nothing to check), or of one whose Request
+    Authenticator is the hash over sixteen zero octets (Accounting-, Disconnect-, CoA-Request) and the
+    Authenticator field equals `Rfc2866.requestAuth` (= `Rfc5176.requestAuth`) over the fields.
+    Reply codes and unassigned codes are never authentic requests. -/
+theorem isAuthenticRequest_iff_fields (H : Hash) (q s : Bytes) (hpad : lengthField q = q.length) :
+    isAuthenticRequest H q s = true ↔
+      s ≠ [] ∧ 20 ≤ q.length ∧
+      ∃ k : Kind, k.code = (wireFields q).code.toNat ∧
+        (Rule k .unpredictable ∨
+         (Rule k .overZeroOctets ∧
+          (wireFields q).authenticator = Rfc2866.requestAuth H (wireFields q) s)) := by
+  exact isAuthenticRequest_fields H q s hpad
+
+/-- … and with padding: hashed too, as in `padding_is_hashed`. -/
+theorem request_padding_is_hashed (H : Hash) (q s : Bytes)
+    (h1 : 20 ≤ lengthField q) (h2 : lengthField q ≤ q.length) :
+    isAuthenticRequest H q s = true ↔
+      s ≠ [] ∧
+      ∃ k : Kind, k.code = (wireFields q).code.toNat ∧
+        (Rule k .unpredictable ∨
+         (Rule k .overZeroOctets ∧
+          (wireFields q).authenticator =
+            H ([(wireFields q).code] ++ [(wireFields q).identifier] ++
+                Rfc2865.lengthOctets (wireFields q).length ++
+                [0, 0, 0, 0, 0, 0, 0, 0, 0, 0, 0, 0, 0, 0, 0, 0] ++
+                ((wireFields q).attributes ++ padding q) ++ s))) := by
+  exact isAuthenticRequest_padding H q s h1 h2
+
+/-! ### 13. Tampering: what is rejected, and under which hypothesis on `H`
+
+  Nothing can be proved for an arbitrary `H` beyond the following: a constant `H` verifies everything
+  (`hash_hypothesis_needed` below).  So each theorem says (i) the hash INPUT of the altered triple
+  differs from the original's, and (ii) if `H` does not collide on exactly THAT pair of inputs, the
+  altered triple is rejected.  Alterations of the authenticator field itself, and truncations below
+  20 octets, are rejected without any hypothesis on `H`. -/
+
+/-- the authenticator field altered (anything in octets 4..19; the rest kept): rejected outright -/
+theorem tamper_authenticator_field (H : Hash) (r r' q s : Bytes)
+    (hok : isAuthenticResponse H r q s = true)
+    (h4 : r'.take 4 = r.take 4) (h20 : r'.drop 20 = r.drop 20)
+    (hne : (r'.drop 4).take 16 ≠ (r.drop 4).take 16) :
+    isAuthenticResponse H r' q s = false := by
+  exact tamper_authfield_aux H r r' q s hok h4 h20 hne
+
+/-- one octet of the authenticator field altered: rejected outright -/
+theorem tamper_authenticator_octet (H : Hash) (r q s : Bytes) (i : Nat) (b : UInt8)
+    (hok : isAuthenticResponse H r q s = true) (hi : i < r.length) (h4 : 4 ≤ i) (h20 : i < 20)
+    (hb : b ≠ r[i]) :
+    isAuthenticResponse H (r.set i b) q s = false := by
+  exact tamper_authfield_aux H r _ q s hok (set_take4_same r i b h4) (set_drop20_same r i b h20)
+    (set_authfield_differs r i b hi hb h4 h20)
+
+/-- covered octets altered in any way (authenticator field kept; sizes may differ: corruptions,
+    truncations to ≥ 20 octets, extensions): the hash input differs, and the altered datagram is
+    rejected unless `H` collides on the two inputs -/
+theorem tamper_covered (H : Hash) (r r' q s : Bytes)
+    (hok : isAuthenticResponse H r q s = true) (hr' : 20 ≤ r'.length)
+    (hauth : (r'.drop 4).take 16 = (r.drop 4).take 16)
+    (hne : r'.take 4 ≠ r.take 4 ∨ r'.drop 20 ≠ r.drop 20) :
+    authInput r' ((q.drop 4).take 16) s ≠ authInput r ((q.drop 4).take 16) s ∧
+    (H (authInput r' ((q.drop 4).take 16) s) ≠ H (authInput r ((q.drop 4).take 16) s) →
+      isAuthenticResponse H r' q s = false) := by
+  exact tamper_covered_aux H r r' q s hok hr' hauth hne
+
+/-- one covered octet altered (Code, Identifier, Length, any attribute or padding octet) -/
+theorem tamper_covered_octet (H : Hash) (r q s : Bytes) (i : Nat) (b : UInt8)
+    (hok : isAuthenticResponse H r q s = true) (hi : i < r.length) (hcov : i < 4 ∨ 20 ≤ i)
+    (hb : b ≠ r[i]) :
+    authInput (r.set i b) ((q.drop 4).take 16) s ≠ authInput r ((q.drop 4).take 16) s ∧
+    (H (authInput (r.set i b) ((q.drop 4).take 16) s) ≠ H (authInput r ((q.drop 4).take 16) s) →
+      isAuthenticResponse H (r.set i b) q s = false) := by
+  have hlen : 20 ≤ (r.set i b).length := by
+    rw [List.length_set]
+    exact ((isAuthenticResponse_eq_true_iff H r q s).1 hok).1
+  exact tamper_covered_aux H r _ q s hok hlen (set_authfield_same r i b hcov)
+    (set_covered_differs r i b hi hb hcov)
+
+/-- truncation: below 20 octets rejected outright; otherwise the input differs (shorter) -/
+theorem tamper_truncation (H : Hash) (r q s : Bytes) (n : Nat)
+    (hok : isAuthenticResponse H r q s = true) (hn : n < r.length) :
+    (n < 20 → isAuthenticResponse H (r.take n) q s = false) ∧
+    (20 ≤ n →
+      authInput (r.take n) ((q.drop 4).take 16) s ≠ authInput r ((q.drop 4).take 16) s ∧
+      (H (authInput (r.take n) ((q.drop 4).take 16) s) ≠ H (authInput r ((q.drop 4).take 16) s) →
+        isAuthenticResponse H (r.take n) q s = false)) := by
+  constructor
+  · intro h
+    exact short_rejected_aux H _ q s (Or.inl (by simp; omega))
+  · intro h
+    apply tamper_covered_aux H r _ q s hok (by simp; omega) (auth_take r n h)
+    right
+    intro heq
+    have := congrArg List.length heq
+    simp at this
+    omega
+
+/-- extension by any non-empty suffix -/
+theorem tamper_extension (H : Hash) (r q s ext : Bytes)
+    (hok : isAuthenticResponse H r q s = true) (hne : ext ≠ []) :
+    authInput (r ++ ext) ((q.drop 4).take 16) s ≠ authInput r ((q.drop 4).take 16) s ∧
+    (H (authInput (r ++ ext) ((q.drop 4).take 16) s) ≠ H (authInput r ((q.drop 4).take 16) s) →
+      isAuthenticResponse H (r ++ ext) q s = false) := by
+  have hr := ((isAuthenticResponse_eq_true_iff H r q s).1 hok).1
+  apply tamper_covered_aux H r _ q s hok (by simp; omega) (auth_append r ext hr)
+  right
+  intro heq
+  have := congrArg List.length heq
+  have hl : 0 < ext.length := List.length_pos_iff.2 hne
+  simp at this
+  omega
+
+/-- another secret — ANY other secret, of the same or of another length (the secret is the last
+    component of the hash input); the empty secret is rejected outright -/
+theorem tamper_secret (H : Hash) (r q s s' : Bytes)
+    (hok : isAuthenticResponse H r q s = true) (hne : s' ≠ s) :
+    authInput r ((q.drop 4).take 16) s' ≠ authInput r ((q.drop 4).take 16) s ∧
+    (H (authInput r ((q.drop 4).take 16) s') ≠ H (authInput r ((q.drop 4).take 16) s) →
+      isAuthenticResponse H r q s' = false) ∧
+    (s' = [] → isAuthenticResponse H r q s' = false) := by
+  obtain ⟨h1, h2⟩ := tamper_secret_aux H r q s s' hok hne
+  exact ⟨h1, h2, fun h => short_rejected_aux H r q s' (Or.inr (Or.inr h))⟩
+
+/-- another request authenticator (a reply to another request); a request shorter than 20 octets is
+    rejected outright -/
+theorem tamper_request_authenticator (H : Hash) (r q q' s : Bytes)
+    (hok : isAuthenticResponse H r q s = true)
+    (hne : (q'.drop 4).take 16 ≠ (q.drop 4).take 16) :
+    (q'.length < 20 → isAuthenticResponse H r q' s = false) ∧
+    (20 ≤ q'.length →
+      authInput r ((q'.drop 4).take 16) s ≠ authInput r ((q.drop 4).take 16) s ∧
+      (H (authInput r ((q'.drop 4).take 16) s) ≠ H (authInput r ((q.drop 4).take 16) s) →
+        isAuthenticResponse H r q' s = false)) := by
+  exact ⟨fun h => short_rejected_aux H r q' s (Or.inr (Or.inl h)),
+    fun h => tamper_reqauth_aux H r q q' s hok h hne⟩
+
+/-- What is NOT covered: of the request only octets 4..19 are looked at — its code, identifier,
+    length and attributes do not influence the verdict. -/
+theorem request_only_authenticator_covered (H : Hash) (r q q' s : Bytes)
+    (hq : 20 ≤ q.length) (hq' : 20 ≤ q'.length)
+    (he : (q'.drop 4).take 16 = (q.drop 4).take 16) :
+    isAuthenticResponse H r q' s = isAuthenticResponse H r q s := by
+  exact request_rest_not_covered_aux H r q q' s hq hq' he
+
+/-- `covered_injective` without the equal-length hypothesis on the secrets, for datagrams without
+    padding: the Length field (covered) delimits the attributes, so the boundary between attributes
+    and secret is determined and the covered data determine the hash input injectively.  (With
+    padding the boundary is ambiguous: `covered_boundary_ambiguous`.) -/
+theorem covered_injective_nopad (r r' a a' s s' : Bytes)
+    (hr : 20 ≤ r.length) (hr' : 20 ≤ r'.length) (ha : a.length = 16) (ha' : a'.length = 16)
+    (hp : lengthField r = r.length) (hp' : lengthField r' = r'.length)
+    (h : authInput r a s = authInput r' a' s') :
+    r.take 4 = r'.take 4 ∧ a = a' ∧ r.drop 20 = r'.drop 20 ∧ s = s' := by
+  exact authInput_injective_nopad r r' a a' s s' hr hr' ha ha' hp hp' h
+
+/-- with padding and secrets of different lengths the hypothesis `s.length = s'.length` of
+    `covered_injective` cannot be dropped: a padding octet and a secret octet are interchangeable -/
+theorem covered_boundary_ambiguous :
+    authInput ([2, 7, 0, 20] ++ zeros 16 ++ [9]) (zeros 16) [5] =
+      authInput ([2, 7, 0, 20] ++ zeros 16) (zeros 16) [9, 5] := by
+  decide
+
+/-- Why the hypothesis `H inp' ≠ H inp` is there: for the constant hash every alteration of covered
+    octets, of the secret and of the request authenticator is accepted. -/
+theorem hash_hypothesis_needed :
+    let H : Hash := fun _ => zeros 16
+    let r : Bytes := [2, 7, 0, 20] ++ zeros 16
+    let q : Bytes := [1, 7, 0, 20] ++ zeros 16
+    isAuthenticResponse H r q [115] = true ∧
+    isAuthenticResponse H (r.set 0 3) q [115] = true ∧          -- Code altered
+    isAuthenticResponse H (r ++ [1, 3, 97]) q [115] = true ∧   -- extended
+    isAuthenticResponse H r q [116, 1] = true ∧                 -- another secret
+    isAuthenticResponse H r (q.set 5 1) [115] = true ∧          -- another request authenticator
+    isAuthenticResponse H (r.set 4 1) q [115] = false := by     -- authenticator field: rejected anyway
+  decide
+
+/-! ### 14. New and the entropy source
+
+  `newFrom src code secret` is `New` on a source (`crypto/rand.Reader`) that can still yield the
+  octets `src`; it returns the packet and the unread rest.  (The harness checks the same against a
+  scripted `crypto/rand.Reader`.) -/
+
+/-- `New` consumes exactly 17 octets of the source and uses all of them and nothing else:
+    the consumed prefix is Identifier :: Authenticator. -/
+theorem new_consumes_exactly_17 (src : Bytes) (c : Int) (s : Bytes) (p : Packet) (rest : Bytes) :
+    newFrom src c s = .ok (p, rest) ↔
+      src = (p.id :: p.auth) ++ rest ∧ p.auth.length = 16 ∧ p.code = c ∧ p.secret = s ∧
+        p.attrs = [] := by
+  exact newFrom_ok_iff src c s p rest
+
+/-- the result does not depend on anything beyond the first 17 octets, and leaves them unread -/
+theorem new_ignores_rest (src more : Bytes) (c : Int) (s : Bytes) (p : Packet) (rest : Bytes)
+    (h : newFrom src c s = .ok (p, rest)) :
+    newFrom (src.take 17 ++ more) c s = .ok (p, more) := by
+  exact newFrom_prefix src more c s p rest h
+
+/-- if the source yields fewer than 17 octets `New` panics (and only then); it never returns an error -/
+theorem new_panics_iff_short (src : Bytes) (c : Int) (s : Bytes) :
+    (newFrom src c s = .fault ↔ src.length < 17) ∧ newFrom src c s ≠ .err := by
+  exact ⟨newFrom_fault_iff src c s, newFrom_ne_err src c s⟩
+
+/-- the earlier `newPacket` on exactly 17 octets is this function -/
+theorem new_eq_newPacket (rnd : Bytes) (c : Int) (s : Bytes) (h : rnd.length = 17) :
+    newFrom rnd c s = .ok (newPacket rnd c s, []) := by
+  exact newFrom_eq_newPacket rnd c s h
+
+/-- Successive calls on one source: call number `k` gets the window of stream positions
+    `17 k … 17 k + 16` (`newStream`), the source is advanced by 17 octets per call, and all calls
+    succeed only if the source yields 17 octets for each. -/
+theorem new_calls_take_successive_windows (calls : List (Int × Bytes)) (src : Bytes)
+    (ps : List Packet) (rest : Bytes) (h : newMany calls src = .ok (ps, rest)) :
+    ps.length = calls.length ∧ rest = src.drop (17 * calls.length) ∧
+      17 * calls.length ≤ src.length ∧
+      ∀ k (hk : k < calls.length), ∃ p, ps[k]? = some p ∧
+        newStream src k calls[k].1 calls[k].2 = .ok p := by
+  exact newMany_ok calls src ps rest h
+
+/-- packet `k`'s Identifier is stream octet `17 k` and octet `j` of its Authenticator is stream
+    octet `17 k + 1 + j` … -/
+theorem newStream_window (src : Bytes) (k : Nat) (c : Int) (s : Bytes) (p : Packet)
+    (h : newStream src k c s = .ok p) :
+    17 * k + 17 ≤ src.length ∧
+    p.id = src.getD (17 * k) 0 ∧ p.auth = (src.drop (17 * k + 1)).take 16 ∧
+      (∀ j, j < 16 → p.auth.getD j 0 = src.getD (17 * k + 1 + j) 0) ∧
+      p.auth.length = 16 ∧ p.code = c ∧ p.secret = s ∧ p.attrs = [] := by
+  exact newStream_ok src k c s p h
+
+/-- … and call `k` panics iff the source ends before position `17 k + 17`. -/
+theorem newStream_panics_iff (src : Bytes) (k : Nat) (c : Int) (s : Bytes) :
+    newStream src k c s = .fault ↔ src.length < 17 * k + 17 := by
+  exact newStream_fault_iff src k c s
+
+/-- No stream octet is ever reused: the windows of two different calls are disjoint, and within a
+    window each octet goes to one field position (offset 0 = Identifier, offset 1 + j =
+    Authenticator octet j).  Stream position `17 k + a` (a < 17) determines both `k` and `a`. -/
+theorem windows_disjoint (j k a b : Nat) (ha : a < 17) (hb : b < 17)
+    (h : 17 * j + a = 17 * k + b) : j = k ∧ a = b := by
+  omega
+
+/-! ### Non-vacuity (tests, evaluated by the kernel with the repo's MD5 model `RV.MD5.md5`) -/
+section examples
+open RV.MD5 (md5)
+
+/-- Access-Request id 7, authenticator 1..16, secret "s", User-Name "a" -/
+def exReq : Packet := ⟨1, 7, [1, 2, 3, 4, 5, 6, 7, 8, 9, 10, 11, 12, 13, 14, 15, 16], [115], [⟨1, [97]⟩]⟩
+def exReqWire : Bytes := [1, 7, 0, 23, 1, 2, 3, 4, 5, 6, 7, 8, 9, 10, 11, 12, 13, 14, 15, 16, 1, 3, 97]
+/-- the Access-Accept to it, with Reply-Message "hi" -/
+def exReplyWire : Bytes :=
+  [2, 7, 0, 24, 96, 32, 227, 248, 207, 183, 56, 123, 91, 19, 117, 218, 171, 156, 167, 112, 18, 4, 104, 105]
+/-- Accounting-Request id 9, secret "s", Acct-Status-Type 1 -/
+def exAcct : Packet := ⟨4, 9, zeros 16, [115], [⟨40, [0, 0, 0, 1]⟩]⟩
+def exAcctWire : Bytes :=
+  [4, 9, 0, 26, 186, 40, 13, 247, 133, 243, 229, 131, 157, 179, 91, 9, 14, 124, 32, 27, 40, 6, 0, 0, 0, 1]
+
+example : encode md5 exReq = .ok exReqWire := by decide +kernel
+/-- every hypothesis of `response_verifies` holds of a concrete reply (with MD5) … -/
+example :
+    20 ≤ exReqWire.length ∧ (exReqWire.drop 4).take 16 = exReq.auth ∧ exReq.auth.length = 16 ∧
+    exReq.secret ≠ [] ∧ Rfc.encClass 2 = .hashReqAuth ∧
+    encode md5 { response exReq 2 with attrs := [⟨18, [104, 105]⟩] } = .ok exReplyWire := by
+  decide +kernel
+/-- … and so does its conclusion, evaluated directly -/
+example : isAuthenticResponse md5 exReplyWire exReqWire [115] = true := by decide +kernel
+/-- `request_verifies`: hypotheses and conclusion on an Accounting-Request and on the Access-Request -/
+example :
+    exAcct.auth.length = 16 ∧ exAcct.secret ≠ [] ∧ Rfc.encClass exAcct.code = .hashZero ∧
+    (0 ≤ exAcct.code ∧ exAcct.code ≤ 255) ∧ encode md5 exAcct = .ok exAcctWire ∧
+    isAuthenticRequest md5 exAcctWire [115] = true := by
+  decide +kernel
+example : Rfc.encClass exReq.code = .verbatim ∧ isAuthenticRequest md5 exReqWire [115] = true := by
+  decide +kernel
+/-- `isAuthenticResponse_iff_fields`: the hypothesis and every conjunct of the right-hand side -/
+example :
+    lengthField exReplyWire = exReplyWire.length ∧ ([115] : Bytes) ≠ [] ∧ 20 ≤ exReplyWire.length ∧
+    20 ≤ exReqWire.length ∧
+    (wireFields exReplyWire).authenticator =
+      Rfc2865.responseAuth md5 (wireFields exReplyWire) (wireFields exReqWire).authenticator [115] := by
+  decide +kernel
+/-- `isAuthenticRequest_iff_fields`: hypothesis and right-hand side, with the witness packet type -/
+example :
+    lengthField exAcctWire = exAcctWire.length ∧ 20 ≤ exAcctWire.length ∧
+    Kind.accountingRequest.code = (wireFields exAcctWire).code.toNat ∧
+    (wireFields exAcctWire).authenticator = Rfc2866.requestAuth md5 (wireFields exAcctWire) [115] := by
+  decide +kernel
+/-- `encode_fields`: the emitted datagram is the RFC layout of the fields -/
+example :
+    exReplyWire = Rfc2865.serialize ⟨2, 7, Rfc2865.responseAuth md5 ⟨2, 7, [], [18, 4, 104, 105]⟩ exReq.auth [115],
+      [18, 4, 104, 105]⟩ := by
+  decide +kernel
+/-- `padding_is_hashed` is not vacuous and the deviation is real: the padded reply still parses to the
+    same packet but no longer verifies; a reply whose sender hashed the padding too does verify -/
+example :
+    parse (exReplyWire ++ [0, 0]) [115] = parse exReplyWire [115] ∧
+    (parse exReplyWire [115]).isOk = true ∧
+    20 ≤ lengthField (exReplyWire ++ [0, 0]) ∧ lengthField (exReplyWire ++ [0, 0]) ≤ (exReplyWire ++ [0, 0]).length ∧
+    padding (exReplyWire ++ [0, 0]) = [0, 0] ∧
+    isAuthenticResponse md5 (exReplyWire ++ [0, 0]) exReqWire [115] = false ∧
+    isAuthenticResponse md5
+      (putAuth (exReplyWire ++ [0, 0]) (md5 (authInput (exReplyWire ++ [0, 0]) exReq.auth [115])))
+      exReqWire [115] = true := by
+  decide +kernel
+/-- the tamper theorems' hypotheses hold with MD5 on concrete alterations, and so do their conclusions -/
+example :
+    md5 (authInput (exReplyWire.set 22 72) ((exReqWire.drop 4).take 16) [115]) ≠
+      md5 (authInput exReplyWire ((exReqWire.drop 4).take 16) [115]) ∧
+    isAuthenticResponse md5 (exReplyWire.set 22 72) exReqWire [115] = false ∧
+    isAuthenticResponse md5 (exReplyWire.set 1 8) exReqWire [115] = false ∧
+    isAuthenticResponse md5 (exReplyWire.set 4 97) exReqWire [115] = false ∧
+    isAuthenticResponse md5 exReplyWire exReqWire [115, 1] = false ∧
+    isAuthenticResponse md5 exReplyWire exReqWire [116] = false ∧
+    isAuthenticResponse md5 exReplyWire (exReqWire.set 4 2) [115] = false ∧
+    isAuthenticResponse md5 exReplyWire (exReqWire.set 1 8) [115] = true ∧
+    isAuthenticResponse md5 (exReplyWire.take 22) exReqWire [115] = false := by
+  decide +kernel
+/-- entropy: two calls on a 34-octet stream take octets 0..16 and 17..33; a 33-octet stream makes
+    the second call panic -/
+example :
+    newMany [(1, [115]), (4, [116])] ((List.range 34).map UInt8.ofNat) =
+      .ok ([⟨1, 0, (List.range 16).map (fun i => UInt8.ofNat (i + 1)), [115], []⟩,
+            ⟨4, 17, (List.range 16).map (fun i => UInt8.ofNat (i + 18)), [116], []⟩], []) ∧
+    newMany [(1, [115]), (4, [116])] ((List.range 33).map UInt8.ofNat) = .fault ∧
+    newFrom (zeros 16) 1 [115] = .fault := by
+  decide +kernel
+
+end examples
 
 /-! Non-vacuity (tests): a concrete reply meets the hypotheses of `response_verifies`. -/
 example : Rfc.encClass 2 = .hashReqAuth ∧ Rfc.encClass 4 = .hashZero ∧ Rfc.encClass 13 = .refused := by
